@@ -28,6 +28,7 @@ ROOT = os.path.normpath(os.path.join(os.path.dirname(os.path.abspath(__file__)),
 IMPLDIR = os.path.join(ROOT, "harness", "impl")
 # evidence/ describes runs against /repo itself; a run pointed at another tree (VERIF_REPO: seeded-change tests) must not
 # overwrite it
+MAX_REPORTED = int(os.environ.get("VERIF_MAX_REPORTED", "25"))
 EVID = os.path.join(ROOT, "evidence") if not os.environ.get("VERIF_REPO") else os.path.join(ROOT, "work", "scratch", "evidence")
 REPLAYS = os.path.join(ROOT, "replays")
 KNOWN = os.path.join(ROOT, "known_findings.json")
@@ -289,10 +290,14 @@ def _main(P, tier, seed):
                 lines.append("KNOWN-FINDING: property=%s %s" % (prop, known_sigs[sig].get("description", f["msg"])))
             continue
         violations += 1
+        if violations > MAX_REPORTED:      # every distinct (clause, site) is counted; only the first few get a replay file
+            continue
         path = _write_replay(prop, dict(kind="failing-input", clause=f["clause"], site=f["site"], message=f["msg"],
                                         build=f["build"], case=f["case"], implementation_output=f.get("out"),
                                         seed=seed, tier=tier))
         lines.append("VIOLATION property=%s replay=%s" % (prop, path))
+    if violations > MAX_REPORTED:
+        lines.append("[%s] ... and %d more distinct violation signatures (clause, site) without a replay file" % (prop, violations - MAX_REPORTED))
     if unexplained:
         violations += 1
         d = unexplained[0]
